@@ -12,6 +12,7 @@ import Proofs.ModelsSingle
 import Proofs.ModelsTable
 import Proofs.ModelsGen
 import Proofs.ModelsNests
+import Proofs.ModelsFamily
 
 open Models
 
@@ -246,5 +247,148 @@ example :
   · intro n hn
     simp only [List.mem_cons, List.not_mem_nil, or_false] at hn
     rcases hn with rfl | rfl <;> norm_num
+
+/-! ## round 3 -/
+
+/-- **Euler form of the published generating function**: `G` is homogeneous of degree one, so
+`G(y) = Σ_i y_i · exp(ln G_i)` — the sum running over the AVAILABLE members of the nests and over the
+alone alternatives (the alternatives `G` depends on), with the published `ln G_i` of
+`get_mev_for_nested`.  An emptied nest (no available member) contributes 0 on both sides. -/
+theorem generating_euler (nests : List (Nest ℝ)) (cs : List Int) (V av : Int → ℝ)
+    (hpw : nests.Pairwise (fun a b => ∀ j, j ∈ a.alts → j ∉ b.alts))
+    (hmu : ∀ n ∈ nests, n.mu ≠ 0) :
+    nestedG nests (aloneOf cs (nests.map Nest.alts)) av (fun j => Real.exp (V j)) =
+      eulerSum nests (aloneOf cs (nests.map Nest.alts)) V av :=
+  nestedG_eq_eulerSum nests _ V av hpw hmu (by
+    intro i hi m hm him
+    rw [mem_aloneOf, mem_unionAlts_nests] at hi
+    exact hi.2 ⟨m, hm, him⟩)
+
+/-- **the three published pieces agree**: `P_i = y_i · exp(ln G_i) / G(y)` for an available
+alternative, when the keys of `util` are the members of the nests and the alone alternatives and
+no alone alternative is unavailable (the published `G` keeps the `y_i` of an alone alternative) -/
+theorem nested_euler_probability (nests : List (Nest ℝ)) (cs alts : List Int) (V av : Int → ℝ)
+    (c : Int) (hc : c ∈ alts) (hav : av c ≠ 0)
+    (hpw : nests.Pairwise (fun a b => ∀ j, j ∈ a.alts → j ∉ b.alts))
+    (hmu : ∀ n ∈ nests, n.mu ≠ 0)
+    (hperm : alts.Perm (unionAlts (nests.map Nest.alts) ++ aloneOf cs (nests.map Nest.alts)))
+    (hal : ∀ i ∈ aloneOf cs (nests.map Nest.alts), av i ≠ 0) :
+    nestedP nests alts V av c =
+      Real.exp (V c + nestedLogG nests V av c) /
+        nestedG nests (aloneOf cs (nests.map Nest.alts)) av (fun j => Real.exp (V j)) := by
+  rw [nestedP_eq_mevP, mevP_eq_logitP, logitP_avail _ _ _ _ hc ((avail_iff av c).2 hav),
+    denom_eq_eulerSum nests _ alts V av hperm (fun i hi => (avail_iff av i).2 (hal i hi)),
+    generating_euler nests cs V av hpw hmu]
+
+example : [7, 3, 12, 5].Perm
+    (unionAlts ([(⟨1.5, [7, 12]⟩ : Nest ℝ), ⟨2, [3]⟩].map Nest.alts) ++
+      aloneOf [7, 3, 12, 5] ([(⟨1.5, [7, 12]⟩ : Nest ℝ), ⟨2, [3]⟩].map Nest.alts)) := by
+  decide
+
+/-- … and the sum must not run over every key of `util`: as soon as one member of a nest is
+unavailable, `Σ_{i ∈ util} y_i · exp(ln G_i)` is strictly larger than the published generating
+function (the full statement "G = Σ over all keys" is false of the family) -/
+theorem euler_all_keys_wrong (nests : List (Nest ℝ)) (cs : List Int) (V av : Int → ℝ)
+    (hpw : nests.Pairwise (fun a b => ∀ j, j ∈ a.alts → j ∉ b.alts))
+    (hmu : ∀ n ∈ nests, n.mu ≠ 0)
+    (m : Nest ℝ) (hm : m ∈ nests) (j : Int) (hj : j ∈ m.alts) (hav : av j = 0) :
+    nestedG nests (aloneOf cs (nests.map Nest.alts)) av (fun j => Real.exp (V j)) <
+      eulerSumAllKeys nests (aloneOf cs (nests.map Nest.alts)) V av := by
+  rw [generating_euler nests cs V av hpw hmu]
+  exact eulerSum_lt_allKeys nests _ V av m hm j hj ((avail_false_iff av j).2 hav)
+
+/-- an unavailable member (12) of the nest `[7, 12]` -/
+example : (⟨1.5, [7, 12]⟩ : Nest ℝ) ∈ [(⟨1.5, [7, 12]⟩ : Nest ℝ), ⟨2, [3]⟩] ∧
+    (12 : Int) ∈ (⟨1.5, [7, 12]⟩ : Nest ℝ).alts ∧ (fun j : Int => if j = 12 then (0 : ℝ) else 1) 12 = 0 := by
+  simp
+
+/-- **availability leaves one member in a nest**: the member behaves as an alone alternative
+(`ln G_i = 0`, resp. `log mu + (mu - 1) V_i` with explicit scale), whatever the nest parameter -/
+theorem nested_single_available (nests : List (Nest ℝ)) (mu : ℝ) (V av : Int → ℝ) (i : Int)
+    (m : Nest ℝ) (hm : m ∈ nests) (hi : i ∈ m.alts)
+    (hpw : nests.Pairwise (fun a b => ∀ j, j ∈ a.alts → j ∉ b.alts)) (hmu : m.mu ≠ 0)
+    (h1 : m.alts.filter (avail av) = [i]) :
+    nestedLogG nests V av i = aloneLogG none V i ∧
+      nestedMuLogG nests mu V av i = aloneLogG (some mu) V i := by
+  have hf := findNest_of_mem nests m i hpw hm hi
+  rw [aloneLogG_none, aloneLogG_some]
+  exact ⟨nestedLogG_single nests V av i m hf h1 hmu, nestedMuLogG_single nests mu V av i m hf h1 hmu⟩
+
+/-- hence, when the availabilities leave at most one member in every nest, the nested logit is the
+logit model (with explicit scale: the logit model on `mu · V`), for any nest parameters -/
+theorem nested_sparse_availability (nests : List (Nest ℝ)) (mu : ℝ) (alts : List Int)
+    (V av : Int → ℝ) (c : Int) (hc : c ∈ alts)
+    (h : ∀ m ∈ nests, (m.alts.filter (avail av)).length ≤ 1) (hmu : ∀ m ∈ nests, m.mu ≠ 0) :
+    nestedP nests alts V av c = logitP alts V av c ∧
+      nestedMuP nests mu alts V av c = logitP alts (fun j => mu * V j) av c :=
+  ⟨nestedP_sparse nests alts V av c hc h hmu, nestedMuP_sparse nests mu alts V av c hc h hmu⟩
+
+/-- a nest of two members of which one is unavailable -/
+example : let av : Int → ℝ := fun j => if j = 12 then 0 else 1
+    ([7, 12].filter (avail av)) = [7] := by
+  intro av
+  have h7 : avail av 7 = true := (avail_iff av 7).2 (by simp [av])
+  have h12 : avail av 12 = false := (avail_false_iff av 12).2 (by simp [av])
+  simp [List.filter, h7, h12]
+
+/-- **legacy nests written with the constant parameter 1** (the "normalisation from the bottom"
+scripts): without explicit scale such a nest may be dropped — its members behave as alone
+alternatives, every `ln G_i` and every probability is unchanged … -/
+theorem unit_nests_droppable (nests : List (Nest ℝ)) (alts : List Int) (V av : Int → ℝ) (c : Int)
+    (hpw : nests.Pairwise (fun a b => ∀ j, j ∈ a.alts → j ∉ b.alts)) :
+    nestedP (dropUnitNests nests) alts V av c = nestedP nests alts V av c := by
+  have : nestedLogG (dropUnitNests nests) V av = nestedLogG nests V av := by
+    funext i; exact nestedLogG_dropUnit nests V av i hpw
+  rw [nestedP_eq_mevP, nestedP_eq_mevP, this]
+
+/-- … while with an explicit scale `mu` the log-sum of the nest stays:
+`ln G_i = log mu + (mu - 1) log Σ_{j ∈ nest, available} exp V_j` … -/
+theorem unit_nest_explicit_scale (nests : List (Nest ℝ)) (mu : ℝ) (V av : Int → ℝ) (i : Int)
+    (m : Nest ℝ) (hm : m ∈ nests) (hi : i ∈ m.alts)
+    (hpw : nests.Pairwise (fun a b => ∀ j, j ∈ a.alts → j ∉ b.alts)) (h1 : m.mu = 1) :
+    nestedMuLogG nests mu V av i =
+      Real.log mu + (mu - 1) *
+        Real.log (((m.alts.filter (avail av)).map fun j => Real.exp (V j)).sum) :=
+  nestedMuLogG_unit_nest nests mu V av i m (findNest_of_mem nests m i hpw hm hi) h1
+
+/-- … so that dropping it is wrong there (the full statement "droppable with any scale" is false
+of the family): nest `(1, [1, 2])`, `mu = 2`, `V = 0`, everything available -/
+theorem unit_nest_not_alone :
+    nestedMuLogG [(⟨1, [1, 2]⟩ : Nest ℝ)] 2 (fun _ => 0) (fun _ => 1) 1 ≠
+      nestedMuLogG (dropUnitNests [(⟨1, [1, 2]⟩ : Nest ℝ)]) 2 (fun _ => 0) (fun _ => 1) 1 := by
+  have hdrop : dropUnitNests [(⟨1, [1, 2]⟩ : Nest ℝ)] = [] := by
+    apply List.eq_nil_iff_forall_not_mem.2
+    intro m hm
+    have := (mem_dropUnitNests _ m).1 hm
+    rw [List.mem_singleton] at this
+    exact this.2 (by rw [this.1])
+  have hav : ([1, 2] : List Int).filter (avail (fun _ => (1 : ℝ))) = [1, 2] :=
+    List.filter_eq_self.2 (fun j _ => (avail_iff _ j).2 one_ne_zero)
+  rw [hdrop, unit_nest_explicit_scale [(⟨1, [1, 2]⟩ : Nest ℝ)] 2 (fun _ => 0) (fun _ => 1) 1
+      ⟨1, [1, 2]⟩ (by simp) (by simp) (by simp) rfl,
+    nestedMuLogG_none _ _ _ _ _ (rfl : findNest ([] : List (Nest ℝ)) 1 = none)]
+  simp only [hav, List.map_cons, List.map_nil, Real.exp_zero, List.sum_cons, List.sum_nil, mul_zero]
+  have h2 : Real.log (1 + (1 + 0)) ≠ 0 := by
+    have : (1 : ℝ) + (1 + 0) = 2 := by norm_num
+    rw [this]
+    exact (Real.log_pos (by norm_num)).ne'
+  intro h
+  apply h2
+  linarith
+
+/-- **membership tables, table view**: `get_alpha_values` (one entry per nest, 0.0 where the nest does
+not list the alternative) is the same for a specification in which each nest lists its own members
+only and for the one that lists every alternative in every nest with zeros; for whole memberships
+it is the indicator table of the nested specification -/
+theorem alpha_table (extra : CNest ℝ → List Int) (nests : List (CNest ℝ)) (ns : List (Nest ℝ)) (i : Int) :
+    alphaRow (nests.map (withZeros extra)) i = alphaRow nests i ∧
+      alphaRow (ns.map toCNest) i = ns.map fun m => if i ∈ m.alts then (1 : ℝ) else 0 :=
+  ⟨alphaRow_withZeros extra nests i, alphaRow_toCNest ns i⟩
+
+/-- **correlation of the error terms**: with all nest parameters one (and scale one) two different
+alternatives are uncorrelated, as in the logit model the specification reduces to -/
+theorem correlation_mu_one (nests : List (Nest ℝ)) (i j : Int) (hij : i ≠ j)
+    (h1 : ∀ m ∈ nests, m.mu = 1) : nestedCorr nests 1 i j = 0 :=
+  nestedCorr_mu_one nests i j hij h1
 
 end C06
